@@ -1,4 +1,9 @@
-//! Deterministic thread scheduler (filled in with the C18 work).
+//! Deterministic thread scheduler driven by the crate's schedule points
+//! (filled in with the C18 work).
+
+/// Called from the crate at every schedule point.
+pub fn on_point(_id: &'static str, _obj: usize, _arg: usize) {}
+
 pub fn run(_schedules: &str, _out: &str) {
   eprintln!("sched: not built yet");
   std::process::exit(2);
